@@ -52,13 +52,15 @@ def gen_pdf(w, tag, R, D, ctor="Sigma+Lambda+ld", diag=False):
     return p, dict(S=g["S"], L=g["L"], ld=g["ld"], mu=mu)
 
 
-def gen_cond(w, tag, R, Dy, Dx, kind="full", ctor="Sigma+Lambda+ld"):
+def gen_cond(w, tag, R, Dy, Dx, kind="full", ctor="Sigma+Lambda+ld", zeroM=False):
     """linear-Gaussian conditional through the REAL constructor; kinds: full, diag, identity, identity-diag"""
     C = mods()["conditional"]
     diag = kind in ("diag", "identity-diag")
     g = w.diag_spd(tag, batch(R), Dy) if diag else w.spd(tag, batch(R), Dy)
     if kind in ("full", "diag"):
         M = w.arr(f"M{tag}", *batch(R), Dy, Dx)
+        if zeroM:
+            M = 0.0 * M
         b = w.arr(f"b{tag}", *batch(R), Dy)
         cls = C.ConditionalGaussianPDF if kind == "full" else C.ConditionalGaussianDiagPDF
         kw = dict(M=M, b=b)
@@ -152,9 +154,9 @@ class CondHandle:
         return self.par["M"] is None
 
 
-def gen_cond_handle(w, kind, tag, R, Dy, Dx, ctor="Sigma+Lambda+ld"):
+def gen_cond_handle(w, kind, tag, R, Dy, Dx, ctor="Sigma+Lambda+ld", zeroM=False):
     if kind != "nn":
-        c, par = gen_cond(w, tag, R, Dy, Dx, kind, ctor)
+        c, par = gen_cond(w, tag, R, Dy, Dx, kind, ctor, zeroM=zeroM)
         return CondHandle(w, kind, c, par)
     C = mods()["conditional"]
     g = w.spd(tag, [1], Dy)
